@@ -18,13 +18,13 @@ def gen_request(rng, F, flavor):
     elif r < 0.75:
         path = rng.choice(leaves) + "/x"
     elif r < 0.82:
-        path = "/" + rng.choice(["nope", "", "0", "arr/9", "l9", "inner/y", "lut/12", "lut/01", "lut/21", "trip/0"])
+        path = "/" + rng.choice(["nope", "", "0", "arr/9", "l9", "inner/y", "lutab/12", "lutab/01", "lutab/21", "trip/0"])
     elif r < 0.85:
         # below a node that may be absent at run time (Option / other enum variant): a valid or an invalid remainder, and a
         # decimal numeral beyond usize at an array level (a key is any string: it has to be refused, not to overflow)
         path = rng.choice(["/o/nope", "/o/p/deeper", "/o/", "/opt/x", "/opt/", "/mode/A/x", "/mode/C",
-                           "/lut/18446744073709551616", "/lut/18446744073709551617", "/arr/36893488147419103233",
-                           "/lut/340282366920938463463374607431768211457", "/arr/00000000000000000000001", "/18446744073709551616"])
+                           "/lutab/18446744073709551616", "/lutab/18446744073709551617", "/arr/36893488147419103233",
+                           "/lutab/340282366920938463463374607431768211457", "/arr/00000000000000000000001", "/18446744073709551616"])
     elif r < 0.9:
         path = rng.choice(["foo", "x/y", "bar"])           # no leading slash: everything before the first '/' is ignored
     else:
